@@ -645,9 +645,11 @@ class EnumGen:
                '    match v { None => "none".to_string(), Some(v) => format!("{}{}", ident_of(&v), payload(&v).replace(" ", ":")) }',
                '}',
                'fn _assert_send_sync<X: Send + Sync>() {}',
+               'fn _assert_iter_traits<X: Iterator<Item = Inst> + core::iter::FusedIterator + ExactSizeIterator + DoubleEndedIterator + Clone + core::fmt::Debug>() {}',
                'fn _iter_is_send_sync() {',
+               '    _assert_iter_traits::<<Inst as %s::IntoEnumIterator>::Iterator>();' % sp,
                '    _assert_send_sync::<<Inst as %s::IntoEnumIterator>::Iterator>();' % sp]
-        if e.generics in ('ty', 'where'):
+        if e.generics in ('ty', 'where', 'ty_nd'):
             out.append('    _assert_send_sync::<<%s<std::rc::Rc<u8>> as %s::IntoEnumIterator>::Iterator>();' % (e.name, sp))
         out += ['}',
                 'fn op_iter(a: &[&str]) -> String {',
